@@ -118,6 +118,10 @@ type Acct struct {
 	Stalled   int      // stall faults that blocked
 	StallLive int      // of those, blocked on a context that was never cancelled
 	Samples   int
+	// ClientCancelAt: callback count when another task's Cancel()/Close() returned while Exec was
+	// running (0 = never); LiveAfterCancel: callbacks after that which still saw a live context.
+	ClientCancelAt  int
+	LiveAfterCancel []string
 }
 
 const (
@@ -220,6 +224,15 @@ func (s *Store) SetCancel(cancel func()) {
 	s.mu.Unlock()
 }
 
+// NoteClientCancel records that a client's Cancel()/Close() has returned while Exec was running.
+func (s *Store) NoteClientCancel() {
+	s.mu.Lock()
+	if s.acct.ClientCancelAt == 0 {
+		s.acct.ClientCancelAt = s.acct.N + 1
+	}
+	s.mu.Unlock()
+}
+
 // Acct returns the accounting of the current operation.
 func (s *Store) Acct() *Acct {
 	s.mu.Lock()
@@ -255,6 +268,9 @@ func (s *Store) cb(ctx context.Context, kind uint8) (injected error) {
 	n := a.N
 	if len(a.Kinds) < 1<<16 {
 		a.Kinds = append(a.Kinds, kind)
+	}
+	if a.ClientCancelAt > 0 && ctx != nil && ctx.Err() == nil && len(a.LiveAfterCancel) < 4 {
+		a.LiveAfterCancel = append(a.LiveAfterCancel, fmt.Sprintf("%s#%d", KindNames[kind], n))
 	}
 	var doPanic, doCancel, doStall bool
 	var delay time.Duration
